@@ -12,7 +12,9 @@ VARIABLE pat
 
 Subjects == SeqsUpTo(SubjAlpha, MaxS)
 
-Init == pat = <<>>
+\* the patterns the enumeration starts from (overridden for the bracket-opening family)
+Roots == {<<>>}
+Init == pat \in Roots
 Next == /\ Len(pat) < MaxP
         /\ \E i \in 1..Len(PatAlpha) : pat' = Append(pat, PatAlpha[i])
 
@@ -50,7 +52,7 @@ Emit == /\ PrintT(<<"CASE", ToJson(CaseOf(pat))>>)
                          /\ PrintT(<<"CASE", ToJson(PairOf(<<Second, pat>>))>>)
 
 \* printed once (from the initial state)
-EmitSubjects == pat # <<>> \/ PrintT(<<"SUBJ", ToJson(Subjects)>>)
+EmitSubjects == pat \notin Roots \/ PrintT(<<"SUBJ", ToJson(Subjects)>>)
 
 Inv == Emit /\ EmitSubjects
 =============================================================================
